@@ -51,18 +51,18 @@ class FileSystemLoader(BaseLoader):
         """
         template_path = Path(template_name)
 
-        # "", "." and "/" name a search path itself, not a template in it.
-        if not template_path.name:
-            raise TemplateNotFoundError(template_name)
-
-        if self.ext and not template_path.suffix:
-            template_path = template_path.with_suffix(self.ext)
-
         # Don't build a path that escapes the search path. A name with a root or
         # drive would replace the search path when joined to it, and ".." climbs
         # out of it.
         if template_path.anchor or os.path.pardir in template_path.parts:
             raise TemplateNotFoundError(template_name)
+
+        # "" and "." name a search path itself, not a template in it.
+        if not template_path.name:
+            raise TemplateNotFoundError(template_name)
+
+        if self.ext and not template_path.suffix:
+            template_path = template_path.with_suffix(self.ext)
 
         for path in self.search_path:
             source_path = path.joinpath(template_path)
